@@ -454,6 +454,17 @@ def check_c13(rep):
         for bits in ([40], [60], [33, 34]) if quick else ([40], [60], [33, 34], [25, 50], [59]):
             if all(b > (2 * n).bit_length() + 2 for b in bits):
                 bigreq.append({"kind": "batching", "n": n, "bits": bits})
+    # ... and the moduli of every parameter set the other checks (C01-C12, C14-C20) name, so that the premise "the moduli
+    # are distinct NTT primes" of their models is decided here
+    import re, glob
+    seen = set()
+    for f in sorted(glob.glob(os.path.join(os.path.dirname(os.path.abspath(__file__)), "*.py"))):
+        for m in re.finditer(r"(?:bfv|bgv|ckks)_(\d+)_\d+_(\d+(?:,\d+)*)", open(f).read()):
+            key = (int(m.group(1)), tuple(int(b) for b in m.group(2).split(",")))
+            if key not in seen and min(key[1]) >= 7:
+                seen.add(key)
+                bigreq.append({"kind": "coeff", "n": key[0], "bits": list(key[1])})
+    rep.cov["parameter_sets_of_other_checks_redecided"] = len(seen)
     bfile = os.path.join(wd, "genbig.ndjson")
     open(bfile, "w").write("\n".join(json.dumps(g) for g in bigreq) + "\n")
     bigev = [json.loads(l) for l in hcv(["c13", "gen", bfile], timeout=600).splitlines()]
@@ -462,7 +473,7 @@ def check_c13(rep):
         ps = [int(x) for x in g["primes"]]
         blines.append(json.dumps({"ev": "genbig", "n": g["n"], "bits": g["bits"], "panic": bool(g["panic"]), "primes": [arith.limbs(x) for x in ps],
                                   "hmod": [arith.limbs(x // (2 * g["n"])) for x in ps], "certs": [prime_cert(x) if x > 37 and x % 2 == 1 else {"d": [], "r": 0, "bases": []} for x in ps]}))
-    pbad, pst = arith.validate(blines, wd, name="primes", module="Trace_Primes", chunks=8, timeout=2500)
+    pbad, pst = arith.validate(blines, wd, name="primes", module="Trace_Primes", chunks=14, timeout=2500)
     for b in pbad:
         g = bigev[b[0] - 1]
         rep.violation({"kind": "generated_moduli", "n": g["n"], "bits": g["bits"]}, {"event": g})
